@@ -23,15 +23,15 @@ THEOREMS = [
     "C05_outcomes", "C05_value_error_iff", "C05_hooks",
     "C05_first_bad", "C05_all_good_ok", "C05_extra_exact",
     "C05_no_silent_default_partial", "C05_union_outcomes", "C05_union_exceptions",
-    "C05_union_rejects_garbage_partial", "C05_union_rejects_garbage_refuted", "C05_discr_partial",
-    "C05_discr_nonmapping_refuted", "C05_discr_unhashable_refuted", "C05_discr_nofield",
+    "C05_union_rejects_garbage_partial", "C05_union_rejects_garbage_refuted", "C05_discr", "C05_discr_nofield",
     "C05_discr_call_history_free", "C05_discr_history", "C05_discr_variant_outcome_propagates",
 ]
 
 TYPED_THEOREMS = [
-    "C05_typed_link", "C05_typed_outcomes", "C05_typed_first_bad", "C05_typed_cause", "C05_typed_nested_cause",
+    "C05_typed_link", "C05_typed_outcomes", "C05_typed_first_bad", "C05_typed_extra_exact", "C05_typed_cause",
+    "C05_typed_nested_cause",
     "C05_list_exn", "C05_list_ok", "C05_list_not_iterable", "C05_dict_exn", "C05_dict_not_mapping", "C05_tuplefix_exn",
-    "C05_typeddict_exn", "C05_namedtuple_no_silent_default", "C05_namedtuple_exn",
+    "C05_tupleu_var_exn", "C05_typeddict_exn", "C05_namedtuple_no_silent_default", "C05_namedtuple_exn",
 ]
 
 UNION_MEMBERS = ["int", "float", "bool", "str", "None", "date", "UUID", "List[int]", "Dict[str, int]", "Inner",
@@ -657,6 +657,8 @@ def run(ctx: vlib.Ctx):
         "value[str] on non-mappings raises TypeError, registry[tag] on an unhashable tag raises TypeError",
         "harness/props/c05_gen.py, c05_oracle.py: schema materialiser, independent computation of nullable/ident/keys/"
         "defaults per field (DESIGN A.2), value and outcome encoders, reference acceptance predicate",
+        "ErrsTy.tcfg: per-class Config at the type level (forbid_extra_keys, allow_deserialization_not_by_alias, metadata "
+        "aliases) as emitted by the harness from the generated class specs",
         "ErrsTy.v: error-faithful typed unpackers (ue) over TyModel's grammar/IR (cu, pdec, nt_items, td_go are TyModel's and "
         "shared with C03); stdlib primitives (int/float/str, fromisoformat, UUID, Decimal, ip_*, Enum(), decodebytes ...) are "
         "oracles returning a value or the exception class CPython raises - finite tables from the real leaf decoders in case "
